@@ -24,7 +24,8 @@ EXPLANATION = (
     "moment kernels equal their reference definitions on the time-major layout modulo renaming and polynomial normal form; "
     "(R5) kernel dimension parameters receive (header.nchans, yielded count, this block); (R6) the read plan these loops consume "
     "satisfies C01's rules (re-evaluated here, including the multi-file stream rules of C02). Together these make the result "
-    "a function of the range only, not of the gulp. Not decided: float32 summation values and the read_plan integer lattice."
+    "a function of the range only, not of the gulp. Not decided: float32 summation values and the read_plan integer lattice. "
+    "Since F38, R2 also requires that no negative delay reaches the dedispersion kernel."
 )
 BASE = "sigpyproc.base"
 STATS = "sigpyproc.core.stats"
